@@ -1114,6 +1114,11 @@ func (env *Env) extResultType(key string, idx int, x ast.Node) types.Type {
 			return types.Typ[types.Bool]
 		}
 		return env.namedType("time.Time", x)
+	case "(*net/url.Userinfo).Password":
+		if idx == 1 {
+			return types.Typ[types.Bool]
+		}
+		return types.Typ[types.String]
 	}
 	env.fail(x, "extres: unknown result type for %s", key)
 	return nil
